@@ -44,11 +44,18 @@ func NewExecutionControl(client executionv1alpha1.ExecutionV1alpha1Interface, na
 }
 
 func (c *ExecutionControl) UpdateJob(ctx context.Context, rj, newRj *execution.Job) (bool, error) {
+	updatedRj, err := c.UpdateJobAndGet(ctx, rj, newRj)
+	return updatedRj != nil, err
+}
+
+// UpdateJobAndGet updates the Job if it is different. Returns the updated Job, or
+// nil if no update was needed.
+func (c *ExecutionControl) UpdateJobAndGet(ctx context.Context, rj, newRj *execution.Job) (*execution.Job, error) {
 	// No need to update if equal.
 	if isEqual, err := IsJobEqual(rj, newRj); err != nil {
-		return false, errors.Wrapf(err, "cannot compare job")
+		return nil, errors.Wrapf(err, "cannot compare job")
 	} else if isEqual {
-		return false, nil
+		return nil, nil
 	}
 
 	if klog.V(5).Enabled() {
@@ -57,7 +64,7 @@ func (c *ExecutionControl) UpdateJob(ctx context.Context, rj, newRj *execution.J
 
 	updatedRj, err := c.client.Jobs(rj.GetNamespace()).Update(ctx, newRj, metav1.UpdateOptions{})
 	if err != nil {
-		return false, err
+		return nil, err
 	}
 
 	klog.V(3).InfoS("jobcontroller: updated job", logvalues.
@@ -66,7 +73,7 @@ func (c *ExecutionControl) UpdateJob(ctx context.Context, rj, newRj *execution.J
 		Build()...,
 	)
 
-	return true, nil
+	return updatedRj, nil
 }
 
 func (c *ExecutionControl) UpdateJobStatus(ctx context.Context, rj, newRj *execution.Job) (bool, error) {
